@@ -835,7 +835,7 @@ class MultipleRangeStaticProducer(StaticProducer):
                 self.partBoundary = None
             p = self.fileObject.read(
                 min(
-                    self.bufferSize - dataLength,
+                    max(0, self.bufferSize - dataLength),
                     self._partSize - self._partBytesWritten,
                 )
             )
